@@ -45,6 +45,7 @@ type verifExport struct {
 	at       int64 // virtual time of the call
 	failed   bool
 	inflight int // exports in flight on entry (including this one)
+	open     []int // ids of recorded spans that were still open (not ended) when the export call began
 }
 
 // verifNext records every export. Outcomes (success/failure) are taken from `fail`,
@@ -56,6 +57,7 @@ type verifNext struct {
 	maxSeen   int
 	honourCtx bool // fail an export whose context is already done (a downstream that honours cancellation)
 	gate      chan struct{} // when non-nil every export blocks until the gate is closed (a slow downstream)
+	tracer    *verifTracer  // optional: lets begin() snapshot which spans are still open
 	mu        sync.Mutex
 }
 
@@ -78,6 +80,13 @@ func (n *verifNext) begin(ctx context.Context, ids []int64) *verifExport {
 		n.maxSeen = n.inflight
 	}
 	e := &verifExport{ids: ids, ctxErr: ctx.Err(), md: client.FromContext(ctx).Metadata, ctx: ctx, at: rtNow(), inflight: n.inflight}
+	if n.tracer != nil {
+		for _, sp := range n.tracer.spans {
+			if !sp.ended {
+				e.open = append(e.open, sp.id)
+			}
+		}
+	}
 	k := len(n.exports)
 	n.exports = append(n.exports, e)
 	if k < len(n.fail) && n.fail[k] {
@@ -134,6 +143,7 @@ type verifSpan struct {
 	parent int // id of the parent span, -1 for a root
 	links  []int
 	tr     *verifTracer
+	ended  bool
 }
 
 func (s *verifSpan) SpanContext() trace.SpanContext {
@@ -143,8 +153,13 @@ func (s *verifSpan) SpanContext() trace.SpanContext {
 	tid[15] = 1
 	return trace.NewSpanContext(trace.SpanContextConfig{TraceID: tid, SpanID: sid})
 }
-func (s *verifSpan) AddLink(l trace.Link) { s.links = append(s.links, int(l.SpanContext.SpanID()[7])-1) }
-func (s *verifSpan) End(...trace.SpanEndOption) {}
+// AddLink after End is ignored, as the OpenTelemetry SDK does.
+func (s *verifSpan) AddLink(l trace.Link) {
+	if !s.ended {
+		s.links = append(s.links, int(l.SpanContext.SpanID()[7])-1)
+	}
+}
+func (s *verifSpan) End(...trace.SpanEndOption) { s.ended = true }
 
 type verifTracer struct {
 	tembedded.Tracer
